@@ -490,7 +490,7 @@ void AspifTextOutput::writeDirectives() {
 				os_ << "}@" << get<Weight_t>();
 				break;
 			case Directive_t::Project:
-				sep = "#project{"; term = "}.";
+				os_ << "#project{"; term = "}.";
 				for (uint32_t n = get<uint32_t>(); n--; sep = ", ") { printName(os_ << sep, get<Lit_t>()); }
 				break;
 			case Directive_t::Output:
@@ -511,7 +511,7 @@ void AspifTextOutput::writeDirectives() {
 				}
 				break;
 			case Directive_t::Assume:
-				sep = "#assume{"; term = "}.";
+				os_ << "#assume{"; term = "}.";
 				for (uint32_t n = get<uint32_t>(); n--; sep = ", ") { printName(os_ << sep, get<Lit_t>()); }
 				break;
 			case Directive_t::Heuristic:
